@@ -87,6 +87,14 @@ Theorem C12_emit_stream_ok : forall toolarge, rejects_above_4g toolarge ->
 Proof. exact emit_stream_ok. Qed.
 Print Assumptions C12_emit_stream_ok.
 
+(* Reset and reuse (flatcc_builder_reset / flatcc_builder_custom_reset rewind emit_start and emit_end, whatever the
+   emitter): the emit calls of every round form such a stream from a fresh origin 0. *)
+Theorem C12_emit_stream_ok_rounds : forall toolarge, rejects_above_4g toolarge ->
+  forall rounds, Forall (Forall (fun x => valid_site (fst x))) rounds ->
+  Forall (stream_ok 0 0) (run_rounds toolarge bst_init rounds).
+Proof. exact emit_stream_ok_rounds. Qed.
+Print Assumptions C12_emit_stream_ok_rounds.
+
 Theorem C12_fixed_guard_ok : rejects_above_4g toolarge_fixed.
 Proof. exact fixed_rejects. Qed.
 Print Assumptions C12_fixed_guard_ok.
@@ -100,7 +108,9 @@ Print Assumptions C12_emit_front_len_wrap_refuted.
 
 (* Every call site pushes at most four pieces; the inventory the source scan compares with is the model's. *)
 Theorem C12_site_inventory :
-  map (fun s => (Z.of_nat (length (site_pushes s)), true, site_back s)) site_repr =
-  map (fun x => (fst (fst x), true, snd x)) site_inventory /\ length site_repr = 9%nat.
+  map (fun s => (Z.of_nat (length (site_pushes s)), true)) site_repr_max =
+  map (fun x => (fst (fst x), true)) site_inventory /\
+  map site_back site_repr = map snd site_inventory /\
+  length site_repr = 9%nat.
 Proof. exact site_inventory_ok. Qed.
 Print Assumptions C12_site_inventory.
